@@ -91,6 +91,24 @@ def handleSer (st : St) (op : String) (j : Json) : Option (E Json) :=
     match fromDictL (strAtomOf st) deser 1000 items {} 0 1 with
     | .ok (t, _) => return Json.mkObj [("ok", forestToJson t.root.kids)]
     | .error e => return Json.mkObj [("err", .str e.toString)]
+  | "ser.fromdict_at" => some do
+    -- `node.from_dict(doc)` on the node `parent` of the existing tree `t` (fresh ids from `next`)
+    let tops ← forestOfJson st.pool (← field j "t")
+    let parent ← (← field j "parent").getNat?
+    let next ← (← field j "next").getNat?
+    let doc ← jvalOfJson (← field j "doc")
+    let mode ← (fieldD j "deser" (.str "none")).getStr?
+    let items := match doc with | .arr l => l | _ => []
+    let deser := if mode == "none" then none else some (deserOf st mode)
+    -- the registries of the existing tree, rebuilt from the forest (pre-order registration)
+    let nodes := T.flatL tops
+    let byData : List (DataId × List NodeId) := nodes.foldl (fun acc n =>
+      if acc.any (·.1 == n.did) then acc.map fun e => if e.1 == n.did then (e.1, e.2 ++ [n.id]) else e
+      else acc ++ [(n.did, [n.id])]) []
+    let t0 : Tree := { root := mkRoot tops, byId := nodes.map T.id, byData := byData }
+    match fromDict (strAtomOf st) deser 1000 items t0 parent next with
+    | .ok (t, _) => return Json.mkObj [("ok", forestToJson t.root.kids)]
+    | .error e => return Json.mkObj [("err", .str e.toString)]
   | _ => none
 
 end Driver
